@@ -283,13 +283,15 @@ static void run_bulk(void)
          * request that stopped inside a batch (block-aligned or not); the second request is the one
          * placed between red zones */
         {
-            int firsts[8], nf = 0, seconds[8], ns = 0, fi, si, pl;
-            static const int PLACE[4][2] = {{0, 0}, {1, 5}, {11, 3}, {8, 8}};
-            firsts[nf++] = bs; firsts[nf++] = 2 * bs; firsts[nf++] = bs + 3; if (batch > 2 * bs) { firsts[nf++] = batch - bs; firsts[nf++] = batch / 2; }
+            int firsts[10], nf = 0, seconds[10], ns = 0, fi, si, pl;
+            static const int PLACE[6][2] = {{0, 0}, {1, 5}, {11, 3}, {8, 8}, {16, 16}, {0, 16}};
+            firsts[nf++] = bs; firsts[nf++] = 2 * bs; firsts[nf++] = bs + 3; firsts[nf++] = 5; if (batch > 2 * bs) { firsts[nf++] = batch - bs; firsts[nf++] = batch / 2; firsts[nf++] = batch - 1; }
             seconds[ns++] = 1; seconds[ns++] = 3; seconds[ns++] = bs - 1; seconds[ns++] = bs + 3; seconds[ns++] = batch + 5;
+            /* long enough to use up the left-over keystream, run whole batches straight on the caller's buffers and end inside one */
+            seconds[ns++] = 2 * batch + 5; seconds[ns++] = 3 * batch; seconds[ns++] = 4 * batch - 1;
             for (fi = 0; fi < nf; ++fi) for (si = 0; si < ns; ++si) {
                 if ((job_ctr++) % g_opts.nshards != g_opts.shard) continue;
-                for (pl = 0; pl < 4; ++pl) for (mode = 0; mode < 2; ++mode) {
+                for (pl = 0; pl < 6; ++pl) for (mode = 0; mode < 2; ++mode) {
                     CtrObj o; size_t n1 = (size_t)firsts[fi], n = (size_t)seconds[si]; uint8_t *in, *out; static uint8_t ref[1024], got[1024], first_out[1024];
                     uint8_t *ptrs[2]; size_t ls[2]; int regs[2] = {0, 1};
                     arena_reset(); memset(&o, 0, sizeof(o));
